@@ -52,6 +52,7 @@ KERNEL_OPS = {
     'ArchivedDecimal': [('rkyv_eq', ALL_DEC, ALL_DEC), ('rkyv_eq_dec', ALL_DEC, ALL_DEC), ('rkyv_dec_eq', ALL_DEC, ALL_DEC),
                         ('rkyv_partial_cmp', ALL_DEC, ALL_DEC), ('rkyv_cmp', ALL_DEC, ALL_DEC), ('rkyv_partial_cmp_dec', ALL_DEC, ALL_DEC),
                         ('rkyv_dec_partial_cmp', ALL_DEC, ALL_DEC), ('rkyv_roundtrip', ALL_DEC, None)],
+    'serde': [('serde_to_json', ALL_DEC, None), ('serde_roundtrip', ALL_DEC, None)],
     'parser::': [('from_str', ('s',), None)],
     'from_str::': [('from_str', ('s',), None)],
     'format::': [('to_string', ALL_DEC, None), ('string_from', ALL_DEC, None), ('debug', ALL_DEC, None), ('format', ALL_DEC, None)],
@@ -196,6 +197,8 @@ def driver(profile='dev'):
     if profile not in _DRIVER:
         if profile == 'rkyv':
             _DRIVER[profile] = build_driver.build('dev', features=('rkyv',))
+        elif profile == 'serde':
+            _DRIVER[profile] = build_driver.build('dev', features=('serde',))
         else:
             _DRIVER[profile] = build_driver.build(profile)
     return _DRIVER[profile]
@@ -268,7 +271,7 @@ def compare(lines, metas, profile_pair=None):
                         'expected': 'same outcome in both profiles', 'got': '%s: %s / %s: %s' % (profile_pair[0], ga, profile_pair[1], gb),
                         'profiles': list(profile_pair)}
         return None
-    outs = run_batch(lines, 'rkyv' if (metas and metas[0][0].startswith('rkyv_')) else 'dev')
+    outs = run_batch(lines, 'rkyv' if (metas and metas[0][0].startswith('rkyv_')) else 'serde' if (metas and metas[0][0].startswith('serde_')) else 'dev')
     for (op, l, rr, n, m, pr), got in zip(metas, outs):
         if got in ('BADARG', 'BADOP'):
             continue
